@@ -3,9 +3,12 @@
 package store
 
 import (
+	"bytes"
+
 	lru "github.com/hashicorp/golang-lru/v2"
 
 	"github.com/canopy-network/canopy/lib"
+	"github.com/canopy-network/canopy/lib/crypto"
 )
 
 // Verification hooks (build tag `verif` only; add-only, nothing here is compiled into normal builds).
@@ -31,3 +34,122 @@ func VerifSwapBlockCache(h *VerifBlockCache) *VerifBlockCache {
 
 // VerifPurgeBlockCache empties the process-wide block cache (simulates a process restart).
 func VerifPurgeBlockCache() { blockCache.Purge() }
+
+// ---------------------------------------------------------------- SMT hooks
+
+// VerifOp is one pending state operation handed to the tree commit (raw key; the tree hashes it itself).
+type VerifOp struct {
+	Key    []byte
+	Value  []byte
+	Delete bool
+}
+
+// VerifNode is one node of the persisted tree as the tree code itself reads it.
+type VerifNode struct {
+	Key   []byte // encoded node key (data bytes + meta byte)
+	Bits  string // the key as a string of '0'/'1' (decoded with the tree's own bitAt/totalBits)
+	Value []byte
+	Left  []byte
+	Right []byte
+	Leaf  bool
+}
+
+// VerifSMT is a tree of a chosen key width over an in-memory transaction, committed batch by batch with a FRESH SMT
+// object (fresh node cache) per batch, which is how Store.Root() uses the tree (one SMT per block over ss.reader/writer).
+type VerifSMT struct {
+	KeyBits int
+	txn     *Txn
+	db      *Store
+}
+
+// VerifNewSMT creates an empty tree of the given key width over a transaction of a fresh in-memory store.
+func VerifNewSMT(keyBits int, log lib.LoggerI) (*VerifSMT, lib.ErrorI) {
+	st, err := NewStoreInMemory(log)
+	if err != nil {
+		return nil, err
+	}
+	s := st.(*Store)
+	return &VerifSMT{KeyBits: keyBits, db: s, txn: NewTxn(s.ss.reader, s.ss.writer, stateCommitIDPrefix, false, false, true, 1)}, nil
+}
+
+func (v *VerifSMT) Close() { _ = v.db.Close() }
+
+// HashedKeyBits returns the tree key (first KeyBits bits of hash(raw)) as a '0'/'1' string, using the tree's own key code.
+func (v *VerifSMT) HashedKeyBits(raw []byte) string {
+	return verifBits(newNodeKey(crypto.Hash(raw), v.KeyBits))
+}
+
+func verifBits(k *key) string {
+	n := k.totalBits()
+	b := make([]byte, n)
+	for i := 0; i < n; i++ {
+		b[i] = byte('0' + k.bitAt(i))
+	}
+	return string(b)
+}
+
+// Commit applies one batch (sequential Commit or CommitParallel) with a fresh SMT object and returns the root.
+func (v *VerifSMT) Commit(ops []VerifOp, parallel bool) (root []byte, err lib.ErrorI) {
+	s := NewSMT(RootKey, v.KeyBits, v.txn)
+	m := make(map[uint64]valueOp, len(ops))
+	for _, o := range ops {
+		vo := valueOp{key: o.Key, value: o.Value, op: opSet}
+		if o.Delete {
+			vo = valueOp{key: o.Key, op: opDelete}
+		}
+		m[lib.MemHash(o.Key)] = vo
+	}
+	if parallel {
+		err = s.CommitParallel(m)
+	} else {
+		err = s.Commit(m)
+	}
+	if err != nil {
+		return nil, err
+	}
+	return s.Root(), nil
+}
+
+// Dump returns every node reachable from the root, pre-order, read through a fresh SMT object (i.e. from the store).
+func (v *VerifSMT) Dump() ([]VerifNode, lib.ErrorI) {
+	return verifDump(NewSMT(RootKey, v.KeyBits, v.txn))
+}
+
+// Proof / Verify expose the tree's proof functions on the current content.
+func (v *VerifSMT) Proof(rawKey []byte) ([]*lib.Node, lib.ErrorI) {
+	return NewSMT(RootKey, v.KeyBits, v.txn).GetMerkleProof(rawKey)
+}
+func (v *VerifSMT) Verify(rawKey, value []byte, membership bool, root []byte, proof []*lib.Node) (bool, lib.ErrorI) {
+	return NewSMT(RootKey, v.KeyBits, v.txn).VerifyProof(rawKey, value, membership, root, proof)
+}
+func (v *VerifSMT) Root() []byte { return NewSMT(RootKey, v.KeyBits, v.txn).Root() }
+
+func verifDump(s *SMT) (out []VerifNode, err lib.ErrorI) {
+	var walk func(keyBytes []byte, isRoot bool) lib.ErrorI
+	walk = func(keyBytes []byte, isRoot bool) lib.ErrorI {
+		n, e := s.getNode(keyBytes)
+		if e != nil {
+			return e
+		}
+		vn := VerifNode{Key: bytes.Clone(keyBytes), Value: bytes.Clone(n.Value), Left: bytes.Clone(n.LeftChildKey), Right: bytes.Clone(n.RightChildKey)}
+		if !isRoot {
+			vn.Bits = verifBits(new(key).fromBytes(bytes.Clone(keyBytes)))
+		}
+		vn.Leaf = n.LeftChildKey == nil && n.RightChildKey == nil
+		out = append(out, vn)
+		if vn.Leaf {
+			return nil
+		}
+		if e = walk(n.LeftChildKey, false); e != nil {
+			return e
+		}
+		return walk(n.RightChildKey, false)
+	}
+	err = walk(s.root.Key.bytes(), true)
+	return
+}
+
+// VerifStoreTreeDump dumps the state-commitment tree of a Store as committed (read back under the prefix Root() wrote it).
+func VerifStoreTreeDump(s *Store) ([]VerifNode, lib.ErrorI) {
+	return verifDump(NewDefaultSMT(NewTxn(s.ss.reader, nil, stateCommitIDPrefix, false, false, true)))
+}
